@@ -399,6 +399,60 @@ func staleDispatch(tr *Trace) (bool, string) {
 	return false, ""
 }
 
+// staleNextAdopted looks for the history signature of the known finding "poll of a killed runtime adopted by the next
+// generation": the Runtime API starts handling a /runtime/invocation/next request (vhook rapi.next, recorded on every
+// hit) at a moment when every such request issued by a process that is still alive has already been accounted for - so
+// the request being handled is one that a process sent before it was killed, still queued in the server, now taken for
+// a poll of the current runtime. Hits are matched to the oldest pending request of a live process first, so a queued
+// request of a dead process that is never handled does not produce the signature.
+func staleNextAdopted(tr *Trace) (bool, string) {
+	type req struct {
+		actor, proc string
+		seq         int64
+	}
+	var pending []req
+	var parked *req
+	died := map[string]int64{}
+	for i := range tr.Events {
+		e := &tr.Events[i]
+		switch {
+		case e.Kind == "sup.died":
+			if _, ok := died[e.Proc]; !ok {
+				died[e.Proc] = e.Seq
+			}
+		case e.Kind == "issue" && (e.Call == "rt.next" || (e.Call == "raw" && strings.HasSuffix(e.Path, "/runtime/invocation/next"))):
+			pending = append(pending, req{e.Actor, e.Proc, e.Seq})
+		case (e.Kind == "hook.released" || e.Kind == "hook.autoreleased") && e.Call == "rapi.next" && parked != nil:
+			// a handling that a pause point held back goes on now (only in the scenario that orders this finding on purpose)
+			if d, dead := died[parked.proc]; dead && d < e.Seq {
+				return true, fmt.Sprintf("the Runtime API went on handling the next request of %s (process %s, dead since seq %d) at seq %d", parked.actor, parked.proc, d, e.Seq)
+			}
+			parked = nil
+		case e.Kind == "hook.hit" && e.Call == "rapi.next":
+			live := -1
+			for k, r := range pending {
+				if d, dead := died[r.proc]; !dead || d > e.Seq || r.proc == "" {
+					live = k
+					break
+				}
+			}
+			if live >= 0 {
+				if i+1 < len(tr.Events) && tr.Events[i+1].Kind == "hook.parked" && tr.Events[i+1].Call == "rapi.next" {
+					r := pending[live]
+					parked = &r
+				}
+				pending = append(pending[:live:live], pending[live+1:]...)
+				continue
+			}
+			if len(pending) > 0 {
+				r := pending[0]
+				return true, fmt.Sprintf("the Runtime API started handling a next request at seq %d although no live process had one outstanding; %s (process %s, dead since seq %d) had sent one at seq %d", e.Seq, r.actor, r.proc, died[r.proc], r.seq)
+			}
+		}
+	}
+	return false, ""
+}
+
 // attributeStale re-keys the violations of a run whose history shows a stale dispatch, so that they match the known
 // finding and nothing else does. A dead host is never re-keyed.
 func attributeStale(out *kit.Outcome, tr *Trace, prop string) {
@@ -412,6 +466,16 @@ func attributeStale(out *kit.Outcome, tr *Trace, prop string) {
 			}
 			out.Violations[i].Msg = "[" + out.Violations[i].Key + "] " + out.Violations[i].Msg + " [history: " + why + "]"
 			out.Violations[i].Key = prop + "/stale-dispatch-after-reset"
+		}
+		return
+	}
+	if ok, why := staleNextAdopted(tr); ok {
+		for i := range out.Violations {
+			if strings.Contains(out.Violations[i].Key, "host-died") || strings.Contains(out.Violations[i].Key, "hang") {
+				continue
+			}
+			out.Violations[i].Msg = "[" + out.Violations[i].Key + "] " + out.Violations[i].Msg + " [history: " + why + "]"
+			out.Violations[i].Key = prop + "/stale-next-adopted"
 		}
 	}
 }
